@@ -7,6 +7,9 @@
    parse text                -> the blocks found in an arbitrary stream
    live  iface (items)       -> the ping chunk, the concatenated event chunks, the headers
    cs    charset (fields)    -> as enc (text the charset can encode, read back with the same charset)
+   livecs iface charset n (items) early -> one response object constructed with charset, answering n requests one after the
+                                other through its gateway interface: per request the event chunks (read back with the
+                                charset the response ANNOUNCES) and the headers sent
 
    a field is ( key value ) with key in data/event/id/retry; an item is a list of
    fields or the string "ping". *)
@@ -90,6 +93,15 @@ Definition run (c : list sx) : list sx :=
         (* an ASCII-compatible charset on ASCII text: the same bytes as utf-8 *)
         match rd_event x with
         | Some e => let t := build_bytes_from_sse e in [Str t; show_blocks (interpret t)]
+        | None => [tag (lit "badcase")]
+        end
+      else [tag (lit "badcase")]
+  | [Str op; Str iface; Str cs; Num n; x; Num _] =>
+      if list_eqb op (lit "livecs") then
+        match rd_all rd_item (sx_l x) with
+        | Some its =>
+            repeat (Lst [Str (render_all (filter is_ev its));
+                         show_headers (sse_headers_cs (list_eqb iface (lit "asgi")) cs)]) (Z.to_nat n)
         | None => [tag (lit "badcase")]
         end
       else [tag (lit "badcase")]
